@@ -61,8 +61,11 @@ Section Statements.
   Proof. exact round_queues_wake. Qed.
 
   (* "the current poll returns": the loop ends with an event as soon as one is queued and
-     nothing is left to write, or the tty does not take more - in particular in the very iteration
-     in which the wake byte is read while the tty is stalled *)
+     nothing is left to write (every event; output is flushed first: poll's contract), and for a
+     wake request also when the tty does not take more - in the very iteration in which the wake
+     byte is read while the tty is stalled.  Only wake requests cut the flush short: a key or a
+     resize arriving during a large frame is returned after the queue has drained, or at the
+     timeout *)
   Theorem C17_returns_when_idle_partial : forall finite first (s : pstate) sched,
     queue_empty s = true -> events s <> [] ->
     exists e, fst (fst (poll_loop finite first s sched)) = PRet (Some e).
@@ -72,9 +75,28 @@ Section Statements.
     (queue_empty s && negb (events_empty s)) = false ->
     (finite && r_expired r && negb first) = false -> r_eintr r = false ->
     0 < pipe (arrive_all s (r_before r)) ->
-    round_body s r (negb finite) = inr (s', false) ->
+    round_body s r (negb finite) = inr (s', false) ->      (* false: the iteration sent nothing *)
     exists e, fst (fst (poll_loop finite first s (r :: rest))) = PRet (Some e).
   Proof. exact wake_returns_now. Qed.
+
+  (* "within bounded time", counted in iterations of the loop: with a Wake event queued the loop
+     leaves at the first iteration that sends nothing, and every other iteration sends at least
+     one byte, so the poll is over within |pending| + 1 iterations (iterations cut short by
+     EINTR need a signal each and are not counted); in particular it does not go round on a
+     tty that select reports writable and that accepts nothing.  With a wake request in the
+     socket: within |pending| + 2 iterations, never asleep. *)
+  Theorem C17_returns_within_partial : forall sched finite first (s : pstate),
+    QI s -> wake_queued s = true -> Forall (fun r => r_eintr r = false) sched ->
+    plen s < length sched ->
+    fst (fst (poll_loop finite first s sched)) <> PMore.
+  Proof. exact returns_within. Qed.
+
+  Theorem C17_wake_returns_within_partial : forall sched finite (s : pstate),
+    QI s -> Wk s -> Forall (fun r => r_eintr r = false) sched ->
+    plen s + 1 < length sched ->
+    let res := fst (fst (poll_loop finite true s sched)) in
+    res <> PMore /\ res <> PBlocked.
+  Proof. exact wake_returns_within. Qed.
 
   (* events leave oldest first: a poll that returns, returns the oldest queued event and leaves
      the rest followed by what arrived meanwhile; an event with i events ahead of it is returned
@@ -118,7 +140,7 @@ Section Statements.
      happens: flagged signals (forgotten before the wait), later hang-up, timeouts, the answer
      arriving or not *)
   Theorem C17_closing_delivered_partial : forall (is_da : T -> bool) (closing : list A) fuel (s : pstate) r rest k s',
-    QI s -> (N.of_nat (total_len (chunks (tq (io s))) + length closing) <= usize_max)%N ->
+    0 < fuel -> QI s -> (N.of_nat (total_len (chunks (tq (io s))) + length closing) <= usize_max)%N ->
     r_eintr r = false -> r_wr_err r = false -> r_accept r = Some k -> (usize_max <= k)%N ->
     hup s = false -> Forall (fun m => m <> MHup) (r_before r) ->
     dispose is_da closing fuel s (r :: rest) = Some s' ->
@@ -138,6 +160,16 @@ Example C17_wake_with_stalled_output_example :
   let s1 := arrive (upd_io s0 (mkT (write (tq (io s0)) [1;2;3]%N) [] 0)) MWake in
   let '(res, s', _) := poll false s1 [stall; stall; stall] in
   res = PRet (Some EvWake) /\ queue_empty s' = false.
+Proof. vm_compute. split; reflexivity. Qed.
+
+(* ... while a key typed during a stalled frame does not cut the flush short: poll(None) keeps
+   waiting for the tty (flush-first contract), and returns the key once the output has drained *)
+Example C17_key_waits_for_the_flush_example :
+  let s0 : pstate N N := opened 7 8 in
+  let s1 := arrive (upd_io s0 (mkT (write (tq (io s0)) [1;2;3]%N) [] 0)) (MInput [97%N]) in
+  let go : round_env N := mkR false [] false (Some 100%N) false [] [] [] 1024 in
+  fst (fst (poll false s1 [stall; stall])) = PBlocked
+  /\ fst (fst (poll false s1 [stall; go; go])) = PRet (Some (EvInput 97%N)).
 Proof. vm_compute. split; reflexivity. Qed.
 
 (* domain assumption "the peer eventually reads": dispose with a peer that never reads - the
